@@ -409,6 +409,34 @@ func (w *walker) lockPath(e ast.Expr) string {
 		// any other bare local (mu := &x.mu; mu.Lock()): never to be confused with a receiver field of the same name
 		return "local:" + id.Name
 	}
+	// rooted at a parameter: named by position, so that renaming the parameter does not change the table
+	root := e
+	for {
+		switch x := root.(type) {
+		case *ast.SelectorExpr:
+			root = x.X
+			continue
+		case *ast.ParenExpr:
+			root = x.X
+			continue
+		case *ast.StarExpr:
+			root = x.X
+			continue
+		}
+		break
+	}
+	if id, ok := root.(*ast.Ident); ok && w.m.decl.Type.Params != nil {
+		i := 0
+		for _, f := range w.m.decl.Type.Params.List {
+			for _, n := range f.Names {
+				if n.Name == id.Name {
+					t := w.p.text(e)
+					return fmt.Sprintf("arg%d", i) + strings.TrimPrefix(t, id.Name)
+				}
+				i++
+			}
+		}
+	}
 	return w.p.text(e)
 }
 
